@@ -10,5 +10,5 @@ python3 -c "
 import sys; sys.path.insert(0,'/verif/driver'); import gen_sources; gen_sources.generate('/repo','/verif','$D/h',0)"
 cd $D/h
 export CARGO_NET_OFFLINE=true RUSTFLAGS="--cfg tls_parser_verif"
-ulimit -v 16000000
+ulimit -v 24000000; ulimit -s unlimited
 exec cargo kani --harness "$H" --exact --target-dir $D/t-$F -Z stubbing --features "$F" "$@"
